@@ -221,6 +221,8 @@ func (s *state) errName(err error) string {
 					return "E:Type"
 				case "RangeError":
 					return "E:Range"
+				case "SyntaxError":
+					return "E:Syntax"
 				}
 				return "E:Other:" + common.OneLine(n.String()+": "+ex.Error())
 			}
@@ -491,6 +493,54 @@ func (s *state) op(ws []string) string {
 		return s.freshOp(ws)
 	case "O":
 		return s.ofFrom(ws)
+	case "h":
+		v := s.view(atoi(ws[1]))
+		fn, ok := goja.AssertFunction(rt.Get("Uint8Array").(*goja.Object).Get("prototype").(*goja.Object).Get("toHex"))
+		if !ok {
+			panic("no toHex")
+		}
+		res, err := fn(v)
+		if err != nil {
+			return s.errName(err)
+		}
+		if res.String() == "" {
+			return "hex:-"
+		}
+		return "hex:" + res.String()
+	case "H":
+		v := s.view(atoi(ws[1]))
+		str := ws[2]
+		if str == "-" {
+			str = ""
+		}
+		fn, ok := goja.AssertFunction(rt.Get("Uint8Array").(*goja.Object).Get("prototype").(*goja.Object).Get("setFromHex"))
+		if !ok {
+			panic("no setFromHex")
+		}
+		res, err := fn(v, rt.ToValue(str))
+		if err != nil {
+			return s.errName(err)
+		}
+		ro := res.(*goja.Object)
+		return fmt.Sprintf("rw %d %d", ro.Get("read").ToInteger(), ro.Get("written").ToInteger())
+	case "x":
+		str := ws[1]
+		if str == "-" {
+			str = ""
+		}
+		u8 := rt.Get("Uint8Array").(*goja.Object)
+		fn, ok := goja.AssertFunction(u8.Get("fromHex"))
+		if !ok {
+			panic("no fromHex")
+		}
+		res, err := fn(u8, rt.ToValue(str))
+		if err != nil {
+			return s.errName(err)
+		}
+		o := res.(*goja.Object)
+		out := s.showView(o, "length")
+		s.trackResultView(o)
+		return out
 	case "Q":
 		v := s.view(atoi(ws[2]))
 		args := trimUndef([]goja.Value{s.varg(ws[3]), s.iarg(ws[4])})
